@@ -12,9 +12,9 @@
 
       for callInProgress {
         opts, args, kw, err := sendProg(ctx)             -- `pulled`
-        if err != nil { Send() <- CANCEL{mode: KillNoWait}; return }
-        … opts[progress].(bool) …                        -- bare assertion on application data
-        if prepareCallPayloadMessage(…) != nil { Send() <- CANCEL{mode: KillNoWait}; return }
+        if err != nil { Send() <- CANCEL{mode: c.cancelMode}; return }     -- (fix 4f8171f; before: KillNoWait)
+        callInProgress, _ = opts[progress].(bool)        -- comma-ok (fix 42310e3; before: bare, unset panicked)
+        if prepareCallPayloadMessage(…) != nil { Send() <- CANCEL{mode: c.cancelMode}; return }
         Send() <- CALL{id, progress}                     -- `sendDone`
       }
 
@@ -54,18 +54,26 @@ inductive Out where
   | send (g : Nat) (m : CMsg)
   deriving Repr, Inhabited
 
-/-- The mode of the CANCELs the sender builds: regenerated (`progSenderCancelModes` lists the mode
-    expression of every `wamp.Cancel` literal in the goroutine). -/
-def genSenderCancelMode : String :=
-  if Client.progSenderCancelModes.all (· == "wamp.CancelModeKillNoWait") && !Client.progSenderCancelModes.isEmpty
-  then Client.cancelModeKillNoWait else "?"
+/-- Regenerated: every `wamp.Cancel` literal in the goroutine takes its mode from `c.cancelMode`
+    (fix 4f8171f); before the fix both said `wamp.CancelModeKillNoWait`. -/
+def genSenderUsesConfigured : Bool :=
+  Client.progSenderCancelModes.all (· == "c.cancelMode") && !Client.progSenderCancelModes.isEmpty
+
+/-- Regenerated: `progress` is read from the options with a comma-ok assertion (fix 42310e3). -/
+def genProgressCommaOk : Bool := Client.progSenderProgressAssert == "comma-ok"
 
 /-- The sender's sends are bare channel sends and its loop watches only `callInProgress`. -/
 def genSenderBare : Bool := Client.progSenderSelects == 0 && Client.progSenderLoopCond == "callInProgress"
 
 structure Cfg where
-  senderCancelMode : String := genSenderCancelMode
+  cancelMode : String := Client.defaultCancelMode      -- the client's configured mode (`c.cancelMode`)
+  usesConfigured : Bool := genSenderUsesConfigured
+  progressCommaOk : Bool := genProgressCommaOk
   bare : Bool := genSenderBare
+
+/-- The mode of the CANCELs the sender builds. -/
+def Cfg.senderCancelMode (cfg : Cfg) : String :=
+  if cfg.usesConfigured then cfg.cancelMode else Client.cancelModeKillNoWait
 
 structure State where
   ss : Nat → Sender := fun _ => {}
@@ -102,7 +110,10 @@ def step (cfg : Cfg) (st : State) (ev : Ev) : Option State :=
       | .chunk more => some (st.setS g { x with phase := .sendingChunk more })
       | .err _ => some (st.setS g { x with phase := .sendingCancel })
       | .payloadErr => some (st.setS g { x with phase := .sendingCancel })
-      | .noFlag => some { st with crashed := some noFlagSite }
+      | .noFlag =>
+        -- unset / non-boolean `progress`: the last chunk (comma-ok), or a panic (bare assertion)
+        if cfg.progressCommaOk then some (st.setS g { x with phase := .sendingChunk false })
+        else some { st with crashed := some noFlagSite }
     | _ => none
   | .sendDone g =>
     let x := st.ss g
@@ -197,9 +208,13 @@ theorem shape_step (cfg : Cfg) (st : State) (ev : Ev) (st' : State) (g : Nat)
       by_cases hg : g = g'
       · subst hg
         simp only [hph] at hk
-        cases p <;> simp at h <;> subst h
+        cases p <;> simp at h
+        all_goals (try (split at h <;> simp at h))
+        all_goals subst h
         all_goals (first | exact ⟨k, by simpa [chunk] using hk⟩ | exact ⟨k, by simpa [hph, chunk] using hk⟩)
-      · cases p <;> simp at h <;> subst h
+      · cases p <;> simp at h
+        all_goals (try (split at h <;> simp at h))
+        all_goals subst h
         all_goals (first | exact ⟨k, by simpa [hg] using hk⟩ | exact ⟨k, hk⟩)
     · simp at h
   | sendDone g' =>
@@ -259,7 +274,13 @@ theorem cancel_mode_reachable (cfg : Cfg) (st : State) (h : Reachable cfg st) :
   reachable_invariant cfg (fun st => ∀ p ∈ cancelsOf st.out, p.2 = cfg.senderCancelMode)
     (by intro p hp; simp [cancelsOf] at hp) (cancel_mode_step cfg) st h
 
-theorem sender_mode_today : ({} : Cfg).senderCancelMode = "killnowait" := by decide
+theorem sender_uses_configured_today : ({} : Cfg).usesConfigured = true := by decide
+theorem progress_comma_ok_today : ({} : Cfg).progressCommaOk = true := by decide
 theorem sender_bare_today : ({} : Cfg).bare = true := by decide
+
+/-- Today the sender's CANCEL carries whatever mode is configured. -/
+theorem sender_mode_today (mode : String) : ({ cancelMode := mode } : Cfg).senderCancelMode = mode := by
+  have h : genSenderUsesConfigured = true := by decide
+  simp [Cfg.senderCancelMode, h]
 
 end Nexus.Client.P
